@@ -37,6 +37,7 @@ class Trial:
         self.reentrant_budget = cfg.get("reentrant", 0)
         self.dup_mode = cfg.get("dups", False)
         self.drained = False
+        self.judge_until = 0
         self._wrap_queue()
 
     # ---- boundary stamps on the observer's queue
@@ -204,6 +205,12 @@ class Trial:
         for t in threads:
             t.join(30)
         self.stop_flag.set()
+        # let the emitters finish their scripts, then drain the dispatcher; only what was queued before that point is judged
+        end = time.monotonic() + 5
+        while time.monotonic() < end and any(e.is_alive() and not e.script.empty() for e in self.registry):
+            time.sleep(0.002)
+        time.sleep(0.03)
+        self.judge_until = stamp()
         self.drained = apirig.drain(self.obs, 10)
         self.api("stop")
         self.obs.join(10)
@@ -286,6 +293,8 @@ class Trial:
             for e in self.registry:
                 prev = []
                 for s_p, ev in e.produced:
+                    if s_p > self.judge_until:
+                        continue  # queued while the trial was being wound up: may legitimately never be dispatched
                     counts["produced_judged"] = counts.get("produced_judged", 0) + 1
                     if id(ev) not in deq_of and not any(w["entry"][0] is ev for w in self.windows if isinstance(w["entry"], tuple)):
                         ok = any(q == ev and deq_of.get(id(q), 10**18) > s_p for _, q in prev)
